@@ -100,23 +100,77 @@ ParseDecStr(cs) ==
      ELSE IF \A i \in 1..Len(cs) : ~IsDigit(cs[i]) THEN Invalid     \* no digit at all: never a number
      ELSE UnmodelledStr
 
-\* datetime("..."): explicit catalogue of RFC 3339 strings (and evidently invalid ones)
-DateCatalogue == <<
-  [s |-> S("1970-01-01T00:00:00Z"), v |-> [k |-> "ok", z |-> ZZero]],
-  [s |-> S("2015-07-30T03:26:13Z"), v |-> [k |-> "ok", z |-> Instant(2015, 7, 30, 3, 26, 13, ZZero)]],
-  [s |-> S("2015-07-30T03:26:13.5+02:00"), v |-> [k |-> "ok", z |-> Instant(2015, 7, 30, 1, 26, 13, ZFromInt(500000000))]],
-  [s |-> S("1969-12-31T23:59:59.999999999Z"), v |-> [k |-> "ok", z |-> ZFromInt(-1)]],
-  [s |-> S("2000-02-29T12:00:00-05:30"), v |-> [k |-> "ok", z |-> Instant(2000, 2, 29, 17, 30, 0, ZZero)]],
-  [s |-> S("2015-07-30"), v |-> Invalid],
-  [s |-> S("2015-07-30T03:26:13"), v |-> Invalid],              \* no offset: not an instant
-  [s |-> S("2015-13-01T00:00:00Z"), v |-> Invalid],
-  [s |-> S("2015-02-30T00:00:00Z"), v |-> Invalid],
-  [s |-> S("abc"), v |-> Invalid],
-  [s |-> S("1"), v |-> Invalid],
-  [s |-> S(""), v |-> Invalid] >>
-ParseDateStr(cs) == IF \E i \in 1..Len(DateCatalogue) : DateCatalogue[i].s = cs
-                    THEN DateCatalogue[CHOOSE i \in 1..Len(DateCatalogue) : DateCatalogue[i].s = cs].v
-                    ELSE UnmodelledStr
+\* datetime("..."): the relaxed RFC 3339 reader of the date-time library, transcribed.
+\*   [ws] [+-]YEAR [ws] - [ws] MONTH [ws] - [ws] DAY  (T | t | one space)  [ws] HOUR [ws] : [ws] MINUTE [ws] : [ws] SECOND
+\*   [. DIGITS] [ws] ( UTC | Z | z | (+ | - | U+2212) HH [: and ws]* MM ) [ws]
+\* A year without a sign has at most four digits, with a sign any number; the other fields one or two digits
+\* (padding is not required); only the first nine digits of the fraction count; the offset's minutes are required.
+\* Every way of failing (malformed, a field out of its range, a date that does not exist, an offset of a day or
+\* more, an instant outside the range of the type) is the same cast error.
+RECURSIVE SkipWS(_, _)
+SkipWS(cs, p) == IF p <= Len(cs) /\ IsWS(cs[p]) THEN SkipWS(cs, p + 1) ELSE p
+RECURSIVE DigitsEnd(_, _, _, _)          \* end of the run of digits at p, at most max of them (max = 0: any number)
+DigitsEnd(cs, p, n, max) == IF p <= Len(cs) /\ IsDigit(cs[p]) /\ (max = 0 \/ n < max) THEN DigitsEnd(cs, p + 1, n + 1, max) ELSE p
+NumAt(cs, p, max) == LET q == DigitsEnd(cs, p, 0, max) IN [ok |-> q > p, p |-> q, ds |-> Digits(SubSeq(cs, p, q - 1))]
+RECURSIVE StripZeros(_)
+StripZeros(ds) == IF ds # <<>> /\ ds[1] = 0 THEN StripZeros(Tail(ds)) ELSE ds
+RECURSIVE SmallVal(_, _)                 \* value of at most nine decimal digits
+SmallVal(ds, acc) == IF ds = <<>> THEN acc ELSE SmallVal(Tail(ds), acc * 10 + ds[1])
+RECURSIVE P10(_)
+P10(k) == IF k = 0 THEN 1 ELSE 10 * P10(k - 1)
+LitAt(cs, p, c) == p <= Len(cs) /\ cs[p] = c
+DigitAt(cs, p) == p <= Len(cs) /\ IsDigit(cs[p])
+LowerA(c) == IF c >= 65 /\ c <= 90 THEN c + 32 ELSE c
+RECURSIVE SkipColonWS(_, _)
+SkipColonWS(cs, p) == IF p <= Len(cs) /\ (cs[p] = 58 \/ IsWS(cs[p])) THEN SkipColonWS(cs, p + 1) ELSE p
+OffsetAt(cs, p) ==
+  IF p + 2 <= Len(cs) /\ <<LowerA(cs[p]), LowerA(cs[p + 1]), LowerA(cs[p + 2])>> = S("utc") THEN [ok |-> TRUE, p |-> p + 3, secs |-> 0]
+  ELSE IF LitAt(cs, p, 90) \/ LitAt(cs, p, 122) THEN [ok |-> TRUE, p |-> p + 1, secs |-> 0]
+  ELSE IF ~(p <= Len(cs) /\ cs[p] \in {43, 45, 8722}) THEN [ok |-> FALSE]
+  ELSE IF ~(DigitAt(cs, p + 1) /\ DigitAt(cs, p + 2)) THEN [ok |-> FALSE]
+  ELSE LET q == SkipColonWS(cs, p + 3) IN
+       IF ~(DigitAt(cs, q) /\ DigitAt(cs, q + 1) /\ cs[q] <= 53) THEN [ok |-> FALSE]
+       ELSE [ok |-> TRUE, p |-> q + 2,
+             secs |-> (IF cs[p] = 43 THEN 1 ELSE -1) * (((cs[p + 1] - 48) * 10 + (cs[p + 2] - 48)) * 3600 + ((cs[q] - 48) * 10 + (cs[q + 1] - 48)) * 60)]
+IsLeapYear(y) == (y % 4 = 0 /\ y % 100 # 0) \/ y % 400 = 0
+DaysInMonth(y, m) == IF m = 2 THEN (IF IsLeapYear(y) THEN 29 ELSE 28) ELSE IF m \in {4, 6, 9, 11} THEN 30 ELSE 31
+ParseDateStr(cs) ==
+  LET p0 == SkipWS(cs, 1)
+      sgn == IF LitAt(cs, p0, 45) THEN -1 ELSE IF LitAt(cs, p0, 43) THEN 1 ELSE 0
+      yr == NumAt(cs, IF sgn = 0 THEN p0 ELSE p0 + 1, IF sgn = 0 THEN 4 ELSE 0)
+  IN IF ~yr.ok \/ Len(StripZeros(yr.ds)) > 6 THEN Invalid ELSE
+  LET year == (IF sgn = -1 THEN -1 ELSE 1) * SmallVal(StripZeros(yr.ds), 0)
+      p1 == SkipWS(cs, yr.p)
+      mo == NumAt(cs, SkipWS(cs, p1 + 1), 2)
+  IN IF ~LitAt(cs, p1, 45) \/ ~mo.ok THEN Invalid ELSE
+  LET p2 == SkipWS(cs, mo.p)
+      dy == NumAt(cs, SkipWS(cs, p2 + 1), 2)
+  IN IF ~LitAt(cs, p2, 45) \/ ~dy.ok THEN Invalid
+     ELSE IF ~(dy.p <= Len(cs) /\ cs[dy.p] \in {84, 116, 32}) THEN Invalid ELSE      \* T, t or ONE space
+  LET hr == NumAt(cs, SkipWS(cs, dy.p + 1), 2)
+  IN IF ~hr.ok THEN Invalid ELSE
+  LET p3 == SkipWS(cs, hr.p)
+      mi == NumAt(cs, SkipWS(cs, p3 + 1), 2)
+  IN IF ~LitAt(cs, p3, 58) \/ ~mi.ok THEN Invalid ELSE
+  LET p4 == SkipWS(cs, mi.p)
+      se == NumAt(cs, SkipWS(cs, p4 + 1), 2)
+  IN IF ~LitAt(cs, p4, 58) \/ ~se.ok THEN Invalid ELSE
+  LET hasfrac == LitAt(cs, se.p, 46)
+      fr == IF hasfrac THEN NumAt(cs, se.p + 1, 9) ELSE [ok |-> TRUE, p |-> se.p, ds |-> <<>>]
+  IN IF ~fr.ok THEN Invalid ELSE
+  LET nanos == SmallVal(fr.ds, 0) * P10(9 - Len(fr.ds))
+      p5 == SkipWS(cs, IF hasfrac THEN DigitsEnd(cs, fr.p, 0, 0) ELSE fr.p)       \* digits beyond the ninth are skipped
+      off == OffsetAt(cs, p5)
+  IN IF ~off.ok THEN Invalid
+     ELSE IF SkipWS(cs, off.p) # Len(cs) + 1 THEN Invalid                          \* nothing but white space may follow
+     ELSE LET month == SmallVal(mo.ds, 0) day == SmallVal(dy.ds, 0)
+              hour == SmallVal(hr.ds, 0) minute == SmallVal(mi.ds, 0) second == SmallVal(se.ds, 0)
+          IN IF month < 1 \/ month > 12 \/ day < 1 \/ hour > 23 \/ minute > 59 \/ second > 60 THEN Invalid
+             ELSE IF year < -262143 \/ year > 262142 \/ day > DaysInMonth(year, month) THEN Invalid
+             ELSE IF off.secs > 86399 \/ off.secs < -86399 THEN Invalid
+             ELSE IF second = 60 THEN UnmodelledStr          \* a leap second: representable, outside the model of instants
+             ELSE LET z == ZSub(Instant(year, month, day, hour, minute, second, ZFromInt(nanos)), ZMul(ZFromInt(off.secs), NsPerSec))
+                  IN IF DTInRange(z) THEN [k |-> "ok", z |-> z] ELSE Invalid
 
 Unmodelled == [ok |-> TRUE, v |-> VNone, ap |-> "unmodelled"]
 IsUnmodelled(o) == "ap" \in DOMAIN o /\ o.ap = "unmodelled"
